@@ -19,12 +19,17 @@ Theorem C11_match : forall C objcls M T l dom,
 Proof. exact match_run_exact. Qed.
 
 (* the conditions built from the keywords are satisfiable from the binding root := o exactly when o satisfies the
-   keywords (Spec), and every result keeps that binding of the root *)
+   keywords (relaxed reading; the Spec itself for patterns in F11, see lax_strict), and every result keeps that binding
+   of the root *)
 Theorem C11_match_sat : forall C objcls M D, sub_trans C -> typed C objcls M -> forall T l o,
-  fok_alist C objcls T PRoot l = true -> In o D -> sub C (otype M o) T = true ->
-  (eval_all C M D (tr_alist C T PRoot l) [(PRoot, VO o)] <> [] <-> matches_attrs (sub C) M l o = true)
+  F11lax C objcls T l = true -> In o D -> sub C (otype M o) T = true ->
+  (eval_all C M D (tr_alist C T PRoot l) [(PRoot, VO o)] <> [] <-> lax_alist C M T PRoot l o = true)
   /\ (forall e', In e' (eval_all C M D (tr_alist C T PRoot l) [(PRoot, VO o)]) -> lookup e' PRoot = Some (VO o)).
 Proof. exact match_sat. Qed.
+
+(* inside the (relaxed) fragment no exception is raised *)
+Theorem C11_no_error : forall C objcls M T l dom, F11lax C objcls T l = true -> run_raises C M T l dom = false.
+Proof. exact no_error. Qed.
 
 (* the left-nested AND chain with its false results computes the sequential evaluation used in the proofs *)
 Theorem C11_and_chain : forall C M D cs, true_envs C M D cs = eval_all C M D cs [].
@@ -33,14 +38,43 @@ Proof. exact true_envs_seq. Qed.
 (* the flag the harness computes on a concrete case implies every hypothesis of C11_match: each case counted as
    "inside F11" is an instance of the theorem *)
 Theorem C11_fragment_flag : forall c : mcase, in_F c = true ->
+  run_raises (case_cmodel c) (case_world c) (c_T c) (c_pat c) (c_dom c) = false /\
   forall o, In o (run (case_cmodel c) (case_world c) (c_T c) (c_pat c) (c_dom c)) <->
             In o (spec_run (sub (case_cmodel c)) (case_world c) (c_T c) (c_pat c) (c_dom c)).
 Proof. exact fragment_flag. Qed.
+
+(* ---- finding C11-e characterised: on F11lax (F11 without the clause "every nested match on a collection emits a
+   condition") the answer is exactly what the relaxed reading [lax_*] denotes: the Spec, except that a nested match on a
+   collection that emits no condition constrains nothing.  The Spec's answers are never lost; for the simplest vacuous
+   keyword the two readings differ exactly on the elements whose collection is empty. ---- *)
+Theorem C11_match_lax : forall C objcls M T l dom,
+  sub_trans C -> typed C objcls M -> F11lax C objcls T l = true ->
+  forall o, In o (run C M T l dom) <-> In o (lax_run C M T l dom).
+Proof. exact match_run_lax. Qed.
+Theorem C11_lax_superset : forall C M T l dom o, In o (spec_run (sub C) M T l dom) -> In o (lax_run C M T l dom).
+Proof. exact lax_superset. Qed.
+Theorem C11_vacuous_keyword : forall C objcls M oc p a t o d xs,
+  sub_trans C -> typed C objcls M -> sub C (otype M o) oc = true ->
+  f_type C oc a = Some d -> f_iter C oc a = true -> type_filter C oc a t = false -> attr (mw M) o a = VLO xs ->
+  lax_apat C M oc p a (PMatch (Pat t ANil)) (VLO xs) = true /\
+  matches_attr (sub C) M (PMatch (Pat t ANil)) (VLO xs) = negb (match xs with [] => true | _ => false end).
+Proof. exact vacuous_keyword. Qed.
+Theorem C11_fragment_flag_lax : forall c : mcase, in_Flax c = true ->
+  run_raises (case_cmodel c) (case_world c) (c_T c) (c_pat c) (c_dom c) = false /\
+  forall o, In o (run (case_cmodel c) (case_world c) (c_T c) (c_pat c) (c_dom c)) <->
+            In o (lax_run (case_cmodel c) (case_world c) (c_T c) (c_pat c) (c_dom c)).
+Proof. exact fragment_flag_lax. Qed.
 
 (* ---- outside F11 the statement is false of the faithful model (and of the implementation: known findings) ---- *)
 (* C11-e: a nested match on a collection that emits no condition does not require a member *)
 Theorem C11_refuted_empty_nested : in_F w_kf_emptynested = false /\ differs w_kf_emptynested = true.
 Proof. exact refuted_empty_nested. Qed.
+
+(* C11-f: a keyword whose value is a let-variable over an explicit domain raises TypeError (outcome [-1; 940]) where the
+   Spec (the attribute equals / has a member equal to some value of the domain) has an answer *)
+Theorem C11_refuted_letvalue :
+  in_F w_kf_letvalue = false /\ model_out w_kf_letvalue = SL [SZ (-1); SZ 940] /\ spec_out w_kf_letvalue = SL [SZ 5].
+Proof. exact refuted_letvalue. Qed.
 
 (* ---- repaired defects: the former witnesses are inside F11 and answered as the Spec says ---- *)
 (* C11-a (ded4892): value-equal collections no longer collapse *)
@@ -69,9 +103,15 @@ Proof. exact nonvacuous. Qed.
 
 Print Assumptions C11_match.
 Print Assumptions C11_match_sat.
+Print Assumptions C11_no_error.
 Print Assumptions C11_and_chain.
 Print Assumptions C11_fragment_flag.
+Print Assumptions C11_match_lax.
+Print Assumptions C11_lax_superset.
+Print Assumptions C11_vacuous_keyword.
+Print Assumptions C11_fragment_flag_lax.
 Print Assumptions C11_refuted_empty_nested.
+Print Assumptions C11_refuted_letvalue.
 Print Assumptions C11_fixed_any_dedup.
 Print Assumptions C11_fixed_empty_list.
 Print Assumptions C11_fixed_exists_first.
